@@ -337,3 +337,15 @@ func verifHosts(l *roundRobinLoadBalancer) []*Host { return l.hosts.Load().([]*H
 //@ func proxycore.ClientConn.Handshake [C18, C17]
 //@   requires c != nil && c.closingMu != nil && c.pending != nil && c.conn != nil && c.codec != nil
 //@   modifies *, c.pending.$has, c.pending.$tag, c.pending.$val
+
+//@ func proxycore.Conn.Close [C14]
+//@   requires c != nil
+//@   modifies *
+
+//@ func proxycore.Conn.LocalAddr
+//@   trusted
+//@   modifies nothing
+
+//@ func proxycore.Conn.RemoteAddr
+//@   trusted
+//@   modifies nothing
